@@ -1026,6 +1026,8 @@ def make_world(name, fx, rec, wd):
 
 def replay_one(fx, rec, data) -> bool:
     w = make_world(data["object"], fx, rec, workdir("x02r"))
+    w.live_flags()          # the diagnosis names a deviation the micro-probes identify after its cause
+    rec.clear()
     if any(o in ("Hamiltonian", "HamSys", "GenFuncs") for o, _ in data["history"]):
         warm_up(w)
     expv = data.get("expv") or [""] * len(data["history"])
